@@ -60,6 +60,16 @@ mut("meta-accept-null", ["C19"], ["R-REJ-META"], [(P, "        let JSONValue::Ob
 mut("drop-take", ["C20"], ["R-BOUNDED-READ"], [(P, "let mut meta_data_reader = (&mut input).take(header.json_metadata_length);", "let mut meta_data_reader = (&mut input).take(u64::MAX);")])
 mut("eager-first-tile", ["C20"], ["R-LAZY"], [(P, "        Ok(Self {\n            tile_type: header.tile_type,", "        let _ = add_await([tile_manager.get_tile(0)])?;\n\n        Ok(Self {\n            tile_type: header.tile_type,"), (P, "read_meta_data         from_reader;", "read_meta_data         from_reader         get_tile;"), (P, "[read_meta_data]       [from_reader];", "[read_meta_data]       [from_reader]       [get_tile];"), (P, "[read_meta_data_async] [from_async_reader];", "[read_meta_data_async] [from_async_reader] [get_tile_async];")])
 
+# spurious refusals in a corner (the guard is still there, something extra is refused/skipped as well)
+mut("filter-skips-odd-ids", ["C11"], ["R-FILTER-GUARD"], [(R, "            if !filter_range.contains(&tile_id) {", "            if !filter_range.contains(&tile_id) || tile_id == u64::MAX - 1 {")])
+mut("zxy-refuses-zoom0", ["C07"], ["R-ZXY-GUARD"], [(P, "        if !is_valid_zxy(z, x, y) {\n            return Ok(None);\n        }\n\n        self.get_tile_by_id(", "        if !is_valid_zxy(z, x, y) || z == 0 {\n            return Ok(None);\n        }\n\n        self.get_tile_by_id(")])
+mut("add-refuses-large", ["C04"], ["R-REJ-EMPTY"], [(T, "        if vec.is_empty() {", "        if vec.is_empty() || vec.len() > (1 << 30) {")])
+mut("offset-tile-refuses-offset0", ["C03", "C04"], ["R-ADD-OFFSET"], [(T, "        if length == 0 {", "        if length == 0 || offset == 0 {")])
+mut("remove-keeps-bytes-sometimes", ["C10"], ["R-REMOVE-GUARD"], [(T, "if ids_with_hash.is_empty() {", "if ids_with_hash.is_empty() && hash != 0 {")])
+mut("leaf-skip-and-start", ["C11"], ["R-LEAF-SKIP"], [(R, "            if entry.tile_id > range_end {", "            if entry.tile_id > range_end || entry.tile_id == 7 {")])
+mut("header-len-narrowed", ["C01", "C02"], ["R-LAYOUT-W"], [(P, "let tile_data_length = result.data.len() as u64;", "let tile_data_length = result.data.len() as u32 as u64;")])
+mut("hilbert-id-narrowed", ["C07"], ["R-HILBERT-CALL"], [(I, "hilbert_2d::xy2h_discrete(x as usize, y as usize, z as usize, Variant::Hilbert) as u64;", "hilbert_2d::xy2h_discrete(x as usize, y as usize, z as usize, Variant::Hilbert) as u32 as u64;")])
+
 def main():
     if os.path.isdir(OUT):
         for f in os.listdir(OUT):
